@@ -421,7 +421,16 @@ func (p *parser) rowCount() (Expr, error) {
 	if err != nil {
 		return x, err
 	}
-	if lit, ok := x.(*BasicLit); ok {
+	// Parentheses only group: look through them to find a literal.
+	inner := x
+	for {
+		paren, ok := inner.(*ParenExpr)
+		if !ok {
+			break
+		}
+		inner = paren.X
+	}
+	if lit, ok := inner.(*BasicLit); ok {
 		// Do basic check for common case of literals.
 		if !lit.IsInteger() {
 			return x, fmt.Errorf("expected integer, got %s", formatToken(p.source, Token{
